@@ -157,3 +157,96 @@ Proof.
       * cbn [app length] in Hf. rewrite !app_length in Hf.
         rewrite app_length. cbn [length] in *. lia.
 Qed.
+
+(* ---- the printed string as a whole token -------------------------------------------------- *)
+
+Lemma print_char_head c : is_scalar c = true ->
+  exists x r, print_char c = x :: r /\ x <> 34.
+Proof.
+  intros Hc. unfold print_char.
+  destruct (in_ranges print_string_passthrough c) eqn:Hp.
+  - exists c, []. split; [reflexivity|]. apply in_ranges_passthrough_props in Hp. tauto.
+  - assert (Hcp : c <= 1114111).
+    { unfold is_scalar in Hc. apply orb_true_iff in Hc as [H|H].
+      - apply N.leb_le in H. lia.
+      - apply andb_true_iff in H as [_ H]. apply N.leb_le in H. exact H. }
+    destruct (not_passthrough_has_entry c Hcp Hp) as (e & He). rewrite He.
+    pose proof (print_char_escape c e Hcp Hp He) as Hce. unfold check_entry in Hce.
+    destruct e as [|b0 [|x r]]; try discriminate.
+    exists b0, (x :: r). split; [reflexivity|].
+    assert (b0 = 92); [|lia].
+    destruct r as [|a [|b [|d [|f [|g r]]]]]; try discriminate.
+    + apply andb_true_iff in Hce as [H _]. apply andb_true_iff in H as [H _]. apply N.eqb_eq in H. exact H.
+    + apply andb_true_iff in Hce as [H _]. apply andb_true_iff in H as [H _].
+      apply andb_true_iff in H as [H _]. apply N.eqb_eq in H. exact H.
+Qed.
+
+(* Lexing print_string's output, followed by anything (which must not begin with a quote when the
+   string is empty: two quotes followed by a quote are the start of a block string), gives exactly one STRING
+   token whose value is the text, spanning exactly the printed characters. *)
+Theorem print_string_token (s rest : list N) (cu : cursor) :
+  Forall (fun c => is_scalar c = true) s ->
+  (s = [] -> hd_error rest <> Some 34) ->
+  read_token cu (print_string s ++ rest) =
+  Ok (mk K_STRING cu (cpos cu) (cpos cu + length (print_string s))%nat (Some s),
+      mkCur (cpos cu + length (print_string s))%nat (cline cu) (cls cu), rest).
+Proof.
+  intros Hs Hq. unfold print_string. rewrite <- app_comm_cons, <- app_assoc. cbn [app].
+  unfold read_token. cbn [skip_ignored].
+  change (is_ws_ignored 34) with false. change (34 =? LF) with false. change (34 =? CR) with false.
+  cbv iota. change (34 =? 35) with false. change (34 =? 34) with true. cbv iota.
+  assert (Hst : starts2 34 34 (print_string_body s ++ 34 :: rest) = false).
+  { destruct s as [|c s'].
+    - cbn [print_string_body flat_map app starts2]. destruct rest as [|y rest']; [reflexivity|].
+      change (34 =? 34) with true. cbn [andb].
+      apply N.eqb_neq. intros ->. apply (Hq eq_refl). reflexivity.
+    - inversion Hs as [|? ? Hc _]; subst.
+      destruct (print_char_head c Hc) as (x & r & Ex & Hx).
+      unfold print_string_body. cbn [flat_map]. rewrite Ex. cbn [app starts2].
+      apply N.eqb_neq in Hx. rewrite Hx.
+      destruct ((r ++ flat_map print_char s') ++ 34 :: rest); reflexivity. }
+  rewrite Hst.
+  rewrite (read_printed _ s (S (cpos cu)) [] rest Hs (Nat.lt_succ_diag_r _)).
+  cbn [rev app length]. rewrite app_length. cbn [length].
+  replace (S (cpos cu) + length (print_string_body s) + 1)%nat
+    with (cpos cu + S (length (print_string_body s) + 1))%nat by lia.
+  reflexivity.
+Qed.
+
+(* obligation on the regenerated escape table: no escape sequence contains a line feed *)
+Lemma table_no_newline :
+  forallb (fun e => negb (existsb (N.eqb 10) (snd e))) print_string_tbl = true.
+Proof. vm_compute. reflexivity. Qed.
+
+Lemma print_char_no_lf c : ~ In 10 (print_char c) \/ c = 10.
+Proof.
+  unfold print_char.
+  destruct (in_ranges print_string_passthrough c) eqn:Hp.
+  - left. apply in_ranges_passthrough_props in Hp. intros [H|[]]. lia.
+  - destruct (lookup_tbl print_string_tbl c) as [e|] eqn:He.
+    + left. apply lookup_tbl_in in He.
+      pose proof table_no_newline as T. rewrite forallb_forall in T. specialize (T _ He).
+      cbn [snd] in T. apply negb_true_iff in T. intros Hin.
+      assert (existsb (N.eqb 10) e = true); [|congruence].
+      apply existsb_exists. exists 10. split; [exact Hin|reflexivity].
+    + destruct (N.eq_dec c 10) as [-> | Hn]; [right; reflexivity|left]. intros [H|[]]. congruence.
+Qed.
+
+Lemma print_string_no_lf s : Forall (fun c => is_scalar c = true) s -> ~ In 10 (print_string s).
+Proof.
+  intros Hs. unfold print_string. intros [H|H]; [discriminate|].
+  apply in_app_iff in H as [H|[H|[]]]; [|discriminate].
+  unfold print_string_body in H. apply in_flat_map in H as (c & Hc & Hin).
+  destruct (print_char_no_lf c) as [Hn | ->]; [exact (Hn Hin)|].
+  (* c = 10 is printed through its table entry *)
+  rewrite Forall_forall in Hs. specialize (Hs _ Hc).
+  unfold print_char in Hin.
+  destruct (in_ranges print_string_passthrough 10) eqn:Hp.
+  { apply in_ranges_passthrough_props in Hp. lia. }
+  destruct (not_passthrough_has_entry 10 ltac:(lia) Hp) as (e & He). rewrite He in Hin.
+  apply lookup_tbl_in in He.
+  pose proof table_no_newline as T. rewrite forallb_forall in T. specialize (T _ He).
+  cbn [snd] in T. apply negb_true_iff in T.
+  assert (existsb (N.eqb 10) e = true); [|congruence].
+  apply existsb_exists. exists 10. split; [exact Hin|reflexivity].
+Qed.
